@@ -579,6 +579,9 @@ func (e *EdgeQuery) initQueue() {
 	if len(e.indexCovering) == 0 {
 		// We delay iterator initialization until now to make queries on very
 		// small indexes a bit faster (i.e., where brute force is used).
+		// The iterator must not observe the index before pending updates
+		// have been applied (and published) by whichever goroutine builds it.
+		e.index.maybeApplyUpdates()
 		e.iter = NewShapeIndexIterator(e.index)
 	}
 
